@@ -82,6 +82,13 @@ def reader_table(L, base_name, items, facts):
             ok_lo = llo.add(cur, -1).is_const() and llo.add(cur, -1).c == 0
             endlen = lhi.add(L.lin(mk("len", base)), -1)
             ok_hi = endlen.is_const() and endlen.c == 0
+            if not ok_hi:
+                # the same requirement stated as a separate test (`take(64)` then `is_empty()`): hi == len entailed by the Ok path
+                Lf = lin.Ctx()
+                for f_ in facts:
+                    Lf.add_fact(f_)
+                e2 = Lf.lin(hi).add(Lf.lin(mk("len", base)), -1)
+                ok_hi = lin.entails(Lf, e2) and lin.entails(Lf, e2.scale(-1))
             # and the remainder's length is required to be exactly n
             want_len = lhi.add(llo, -1)
             exact = any(t.op == "eq" and rel == "eq" and v == 1 and t.args[1].op == "int" and t.args[1].args[0] == n and
